@@ -150,14 +150,23 @@ mutual
       else if mi.name = some n then some [i] else findMemberMs r n (i+1)
 end
 
+/-- type of the subobjects designated so far (they all have the same type) -/
+def headTy (root : Ty) : List (List Nat) → Option Ty
+  | p :: _ => subTy root p
+  | [] => none
+
+/-- may the designated arrays grow? -/
+def growableAt (root : Ty) (top : Bool) : List (List Nat) → Bool
+  | p :: _ => growable root top p
+  | [] => false
+
 /-- p6/p7 + the GNU range: the designator list, as the set of designated paths (in order) -/
 def desigPaths (root : Ty) (top : Bool) : Nat → List (List Nat) → List ITok → Except Fail (List (List Nat) × List ITok)
   | 0, _, _ => .error .fuel
   | f+1, ps, toks =>
-    let t? := match ps with | p :: _ => subTy root p | [] => none
     match toks with
     | .dot n :: r =>
-      match t? with
+      match headTy root ps with
       | some t => match findMember t n with
         | some mp => if t.isAgg then desigPaths root top f (ps.map (· ++ mp)) r
                      else .error (.diag "field name not in struct or union initializer")
@@ -165,20 +174,18 @@ def desigPaths (root : Ty) (top : Bool) : Nat → List (List Nat) → List ITok 
                   else .error (.diag "field name not in struct or union initializer")
       | none => .error (.crash "spec: bad path")
     | .idx a :: r =>
-      match t? with
+      match headTy root ps with
       | some (.array _ len) =>
-        let g := match ps with | p :: _ => growable root top p | [] => false
-        if a < 0 ∨ (¬ g ∧ a ≥ len) then .error (.diag "array designator index exceeds array bounds")
+        if a < 0 ∨ (¬ growableAt root top ps ∧ a ≥ len) then .error (.diag "array designator index exceeds array bounds")
         else desigPaths root top f (ps.map (· ++ [a.toNat])) r
       | some (.inc _) =>
         if a < 0 then .error (.diag "array designator index exceeds array bounds")
         else desigPaths root top f (ps.map (· ++ [a.toNat])) r
       | _ => .error (.diag "array index in non-array initializer")
     | .range a b :: r =>
-      match t? with
+      match headTy root ps with
       | some (.array _ len) =>
-        let g := match ps with | p :: _ => growable root top p | [] => false
-        if a < 0 ∨ b < a ∨ (¬ g ∧ b ≥ len) then .error (.diag "array designator index exceeds array bounds")
+        if a < 0 ∨ b < a ∨ (¬ growableAt root top ps ∧ b ≥ len) then .error (.diag "array designator index exceeds array bounds")
         else desigPaths root top f
           (ps.flatMap (fun p => (List.range' a.toNat (b.toNat + 1 - a.toNat)).map (fun k => p ++ [k]))) r
       | some (.inc _) =>
@@ -215,16 +222,20 @@ def descend (root : Ty) (top : Bool) (tok : ITok) : Nat → List Nat → Except 
         | some k => descend root top tok f (path ++ [k])
         | none => .error (.diag "empty aggregate cannot take an initializer")
 
-/-- p14: successive characters initialise the elements; the terminator only if there is room or the size is unknown -/
+/-- element `i` of a string literal as the initializer of one array element -/
+def strLeaf (bytes : List Nat) (esz i : Nat) : Except Fail Init :=
+  match strElem bytes esz i with
+  | some v => .ok (.leaf (some (strNum esz v)))
+  | none => .error (.crash "spec: string element")
+
+/-- p14: successive characters initialise the elements (the terminator only if there is room or the size is unknown);
+    p21: the remainder of the array is zero -/
 def stringValue (elem : Ty) (len? : Option Nat) (bytes : List Nat) (esz : Nat) : Except Fail Init := do
   let n := bytes.length / esz
   let len := match len? with | some l => l | none => n
   let k := min len n
-  let cs ← (List.range k).foldlM (fun (acc : List Init) i =>
-      match strElem bytes esz i with
-      | some v => Except.ok (acc.set i (.leaf (some (strNum esz v))))
-      | none => Except.error (Fail.crash "spec: string element")) (List.replicate len (zeroOf elem))
-  pure (.arr cs)
+  let vals ← (List.range' 0 k).mapM (strLeaf bytes esz)
+  pure (.arr (vals ++ List.replicate (len - k) (zeroOf elem)))
 
 /-- regions in which the run of the specification lies (each is monotone: once set it stays set) -/
 structure Flags where
@@ -292,13 +303,10 @@ def firstCursor : Ty → Option (List Nat)
   | .struct ms _ _ => (nextNamed ms ms.length 0).map ([·])
   | .union ms _ _ => (nextNamed ms ms.length 0).map ([·])
 
-/-- the value a brace-enclosed list starts from: zero; for a union "the first named member is initialized" (p10) -/
-def braceStart (t : Ty) : Init :=
-  match t with
-  | .union ms _ _ => match nextNamed ms ms.length 0 with
-    | some k => (zeroOf t).setMem k
-    | none => zeroOf t
-  | _ => zeroOf t
+/-- the value a brace-enclosed list starts from: zero (p19, p21).  For a union "the first named member is initialized" (p10)
+    if the list stays empty - the same all-zero value; the member a union holds is recorded by the first initializer that
+    reaches it (`modifyAt`), so that a *later* initializer for another member is recognised as a switch -/
+def braceStart (t : Ty) : Init := zeroOf t
 
 /-- the expression a token stands for when it is used as a scalar initializer -/
 def tokExpr : ITok → Option Expr
@@ -377,10 +385,7 @@ def initList : Nat → Ty → Bool → Init → Option (List Nat) → List ITok 
 def initFull (ty : Ty) (toks : List ITok) : Except Fail Result :=
   match toks with
   | .lbrace :: r => do
-    let start := match ty with
-      | .union ms _ _ => (match nextNamed ms ms.length 0 with | some k => (newInit ty true).setMem k | none => newInit ty true)
-      | _ => newInit ty true
-    let res ← initList (toks.length + 2) ty true start (firstCursor ty) r true Flags.none
+    let res ← initList (toks.length + 2) ty true (newInit ty true) (firstCursor ty) r true Flags.none
     pure { res with obj := unflex res.obj }
   | tok :: r =>
     -- p11 scalar, p13 struct-typed expression, p14/p15 string literal for a character array; anything else needs braces (p16)
